@@ -184,7 +184,7 @@ theorem reordered_query_same_answers (ucfg : Url.Cfg) (Pth Q Q' : Bytes) (hP : 6
   apply same_key_same_answers ucfg _ _ _ q q' hq hq' hrest
   have := order_independent ucfg Pth Q Q' hP hb hb' hperm hnd hacc
   unfold reqKey PQS.key
-  rw [this.2.1]
+  rw [this.2.1, this.1]
 
 /-! ### Non-vacuity -/
 
